@@ -388,7 +388,9 @@ def fresh_process_family(run, rows, defaults, rng, n):
             got = json.loads(line[-1][7:])
             for dest in dests:
                 dv = defaults.get(dest)
-                if dest in c['ini']:
+                if sub == 'invalidate' and dest == 'invalid_name':
+                    exp, src = 'x', 'the command line (--target x)'
+                elif dest in c['ini']:
                     exp = type(dv)(c['ini'][dest]) if dv is not None else c['ini'][dest]
                     src = 'the configuration file ~/%s' % RC_LOCATIONS[main_loc]
                 else:
